@@ -95,7 +95,7 @@ class _PipeLike(io.RawIOBase):
         return False
 
     def readinto(self, buf):
-        chunk = self._b.read(min(len(buf), 4096))
+        chunk = self._b.read(min(len(buf), 700))        # a pipe or socket hands over small pieces
         buf[:len(chunk)] = chunk
         return len(chunk)
 
